@@ -1080,6 +1080,16 @@ extern "C" void mc_track_ctor(const void* p, long tag) {
   g_track_total++;
 }
 extern "C" void mc_track_dtor(const void* p) {
+  // Element destructors are plain code that containers run right after a release store ("slot is free
+  // again"). A scheduling point here lets the explorer place another thread between that store and the
+  // destructor, which is where publish-before-destroy bugs live.
+  Thr* me = self_thr;
+  if (me && g.opts[MC_OPT_TRACK_POINTS]) {
+    sched_point(me, MC_K_USER, 0);
+    me->hist = mix3(me->hist, MC_K_USER, me->nops);
+    me->nops++;
+    me->pend_kind = MC_K_NONE;
+  }
   int k = track_find(p, 0);
   if (k < 0) finish_process(MC_ST_VIOLATION, "lifetime: destructor on an object that is not live (double destroy or never constructed)");
   g_track[k].p = (const void*)1;
